@@ -263,7 +263,8 @@ func c10SkipOnly(c *Ctx) {
 	// skip edges: true edge of an If on done.Get(...) ; equal edge of compare(chunks[i].ID, nullChunk.ID)
 	skips := map[edge]bool{}
 	nSkip := 0
-	for _, b := range fn.Blocks {
+	lf := need[0].Parent() // the function that holds the selection loop (loadRange or a new helper)
+	for _, b := range lf.Blocks {
 		iff := lastIf(b)
 		if iff == nil {
 			continue
@@ -297,7 +298,7 @@ func c10SkipOnly(c *Ctx) {
 	// header = a block that dominates need's block and is reachable from it
 	nb := need[0].Block()
 	var header *ssa.BasicBlock
-	for _, b := range fn.Blocks {
+	for _, b := range lf.Blocks {
 		if b.Dominates(nb) && b != nb && reachableFrom(nb, nil)[b] && lastIf(b) != nil {
 			if header == nil || b.Dominates(header) {
 				header = b
